@@ -4,10 +4,12 @@
    against any table entry; likewise for deprecated ids whenever both spellings are valid;
    (ii) for every tree and every allowed list: replacing a leaf / an allowed node by the same node or an
    indistinguishable one changes nothing.
-   C08_partial: the step from "the spelling at a term position of an arbitrary expression string" to "that leaf of
-   the tree" is the compositionality of tokenisation (Proofs/Split.v when present); until then that step is
-   carried by the correspondence check on every id x contexts. *)
-From Spdx Require Import Props.Shipped Spec.Spellings WF.Spellings Proofs.Congruence Proofs.BytesFacts Proofs.MatchProof.
+   (iii) in every textual context (Proofs/Split.v, Proofs/SameParse.v): X+ / X-or-later, and X / X-only when X-only
+   is not itself listed, give the same tokens, hence the same parse outcome, hence the same API results.
+   C08_partial: for the listed -only ids (the GNU families) X and X-only are different, indistinguishable nodes:
+   interchangeability is proved for single terms and at tree level (ii); the step from a compound expression
+   string to its tree with that one leaf replaced is carried by the correspondence check. *)
+From Spdx Require Import Props.Shipped Spec.Spellings Spec.Units WF.Spellings WF.Units Proofs.Congruence Proofs.BytesFacts Proofs.MatchProof Proofs.Split Proofs.SameParse Proofs.Laws Proofs.ApiFacts.
 Local Open Scope list_scope.
 
 Theorem C08_active_spellings x : In x (active T0) ->
@@ -26,10 +28,38 @@ Proof. exact (subst_in_allowed T0 a b t N1 N2). Qed.
 Theorem C08_shipped_lists : chk_active_spellings T0 = true /\ chk_deprecated_spellings T0 = true.
 Proof. exact (conj chk_active_spellings_shipped chk_deprecated_spellings_shipped). Qed.
 
+(* X+ and X-or-later at any term position of any text (expression or allowed entry), with or without WITH:
+   q is empty or starts with a non-id byte other than '+' (a further '+' makes a different term); p is empty or
+   ends in a non-id byte *)
+Theorem C08_plus_orlater x p q :
+  In x (lic_ids T0) -> is_word x = true -> validb T0 (x ++ plus) = true -> validb T0 (x ++ k_orlater) = true ->
+  (q = [] \/ exists c q', q = c :: q' /\ is_idchar c = false /\ c <> "+"%char) ->
+  (p = [] \/ exists p' c1, p = p' ++ [c1] /\ boundary p' c1) ->
+  same_parse T0 (p ++ (x ++ plus) ++ q) (p ++ (x ++ k_orlater) ++ q).
+Proof. exact (plus_orlater_anywhere T0 HT0 chk_unit_tokens_shipped x p q). Qed.
+
+(* X and X-only where X-only is not itself a listed id (it normalises to X): same tokens in every context *)
+Theorem C08_only_unlisted x p q :
+  In x (lic_ids T0) -> is_word x = true -> validb T0 x = true -> validb T0 (x ++ k_only) = true ->
+  existsb (fold_eqb (x ++ k_only)) (lic_ids T0) = false ->
+  (q = [] \/ exists c q', q = c :: q' /\ boundary x c /\ boundary (x ++ k_only) c) ->
+  (p = [] \/ exists p' c1, p = p' ++ [c1] /\ boundary p' c1) ->
+  same_parse T0 (p ++ x ++ q) (p ++ (x ++ k_only) ++ q).
+Proof. exact (only_unlisted_anywhere T0 HT0 chk_unit_tokens_shipped x p q). Qed.
+
+Theorem C08_interchangeable s s' : same_parse T0 s s' ->
+  validb T0 s = validb T0 s' /\
+  (forall A, obs (satisfies T0 s A) = obs (satisfies T0 s' A)) /\
+  (forall e A1 A2, obs (satisfies T0 e (A1 ++ s :: A2)) = obs (satisfies T0 e (A1 ++ s' :: A2))).
+Proof.
+  intros H. split; [apply (same_parse_valid T0 HT0); assumption|]. split; [intros A; apply (same_parse_expression T0 HT0); assumption|].
+  intros e A1 A2; apply (same_parse_allowed T0 HT0 Hnr0); assumption.
+Qed.
+
 Example C08_example :
   parse T0 (s2l "GPL-2.0+ WITH Classpath-exception-2.0") = parse T0 (s2l "GPL-2.0-or-later WITH Classpath-exception-2.0")
   /\ satisfies T0 (s2l "AGPL-1.0") [s2l "AGPL-1.0-only"] = Ok true /\ satisfies T0 (s2l "GPL-2.0") [s2l "GPL-2.0-only"] = Ok true.
 Proof. vm_compute. repeat split; reflexivity. Qed.
 
-Definition C08_theorems := (@C08_active_spellings, @C08_substitute_in_expression, @C08_substitute_in_allowed, @C08_shipped_lists).
+Definition C08_theorems := (@C08_active_spellings, @C08_substitute_in_expression, @C08_substitute_in_allowed, @C08_shipped_lists, @C08_plus_orlater, @C08_only_unlisted, @C08_interchangeable).
 Redirect "assumptions/C08" Print Assumptions C08_theorems.
